@@ -46,15 +46,17 @@ SrcBody(id) ==
       [] id = 8 -> <<Import(LS(NT.n2), "L"), PrintS(MCall("L", "mm", <<Var("x")>>)), T(<<33>>)>>
       [] id = 9 -> <<Macro("mm", <<Param("a")>>, <<T(<<40>>), PrintS(Var("a")), T(<<41>>)>>), T(<<77>>)>>
       [] id = 10 -> <<Inc(LS(NT.n3)), T(<<33>>), Apply("upper", <<>>, <<PrintS(Var("x"))>>)>>
-      [] id = 11 -> <<T(<<108>>), PrintS(Var("x")), IfElse(Test(Var("x"), "defined", <<>>, FALSE), <<T(<<100>>)>>, <<T(<<117>>)>>)>>
+      [] id = 11 -> <<T(<<108>>), PrintS(Var("x")), IfElse(Test(Var("x"), "defined", <<>>, FALSE), <<T(<<100>>)>>, <<T(<<117>>)>>),
+                      T(<<60>>), Block("b", <<T(<<76>>)>>), T(<<62>>)>>
+      [] id = 12 -> <<Extends(Var("p")), Block("b", <<T(<<90>>), PrintS(Var("x"))>>)>>       \* dynamic parent: depends on the context
 SrcPieces(id) == IF id = 3 THEN RawSyntaxError ELSE Source(SrcBody(id), LMin)
-AllSrc == 1..11
+AllSrc == 1..12
 IsSyntaxError(id) == id = 3
 RefersToN2 == {5, 6, 8}
-SrcFor(n) == IF n = "n1" THEN {1, 2, 3, 4, 5, 6, 8, 10} ELSE {1, 3, 4, 7, 9, 10}     \* no recursion: only n1 refers to n2
+SrcFor(n) == IF n = "n1" THEN {1, 2, 3, 4, 5, 6, 8, 10, 12} ELSE {1, 3, 4, 7, 9, 10}     \* no recursion: only n1 refers to n2
 LoaderSrc == 11                   \* content of n3 in the loader
 CtxIds == {1, 2}
-CtxOf(c) == IF c = 1 THEN ("x" :> VS(<<113>>)) ELSE EmptyFn
+CtxOf(c) == IF c = 1 THEN ("x" :> VS(<<113>>)) @@ ("p" :> VS(NT.n2)) ELSE ("p" :> VS(NT.n3))
 
 \* ---- operations -------------------------------------------------------------------------
 \* the key a render result may depend on: logical state only
